@@ -28,7 +28,7 @@ EXPLANATIONS = {
 }
 
 
-@ob("C23.1", ["C23", "C05"], "freeing a replaced memo while a reference handed out earlier in the revision may still be alive is a use-after-free", kind="FLOW+WRITERS")
+@ob("C23.1", ["C23", "C05", "C16"], "freeing a replaced memo while a reference handed out earlier in the revision may still be alive is a use-after-free", kind="FLOW+WRITERS")
 def c23_1(cx):
     """insert_memo: the previous pointer returned by insert_memo_into_table_for flows into deleted_entries.push; DeletedEntries::clear takes &mut self and its only caller is reset_for_new_revision(&mut self); Box::from_raw of memo allocations happens only in SharedBox::drop / table code holding &mut."""
     b = cx.fn(r"^function::IngredientImpl::<C>::insert_memo$")
